@@ -520,6 +520,13 @@ func (in *Interp) stmt(s Stmt, sc *scope, fr *frame) (Value, bool, *ctl) {
 			}
 		}
 		return nil, false, nil
+	case *LetBlock:
+		for _, pr := range v.Pairs {
+			if _, _, c := in.stmt(pr, sc, fr); c != nil {
+				return nil, false, c
+			}
+		}
+		return nil, false, nil
 	case *ExprStmt:
 		val, c := in.eval(v.E, sc, fr)
 		return val, true, c
